@@ -26,6 +26,7 @@ type scenario struct {
 	BlockSizes []int  `json:"block_sizes"`
 	Seed       int64  `json:"seed"`
 	TruncDump  bool   `json:"trunc_dump"` // its dump is used for the crash-point enumeration
+	NoShort    bool   `json:"no_short"`   // no short-lived (TTL 1-2 s) Exec entries
 }
 
 type scenState struct {
@@ -285,9 +286,12 @@ func buildScenario(sc scenario) *scenState {
 		}
 		s := &entSpec{Idx: idx, Via: "exec", Kind: kind, Group: "long"}
 		gen := longTTLs(rng)
-		if sc.Big == 0 && rng.Intn(100) < 15 {
+		if sc.Big == 0 && !sc.NoShort && rng.Intn(100) < 15 {
 			s.Group = "short"
 			gen = shortTTLs(rng)
+		}
+		if sc.NoShort && sc.NExec == 1 {
+			gen = fixedTTLs([]uint32{300, 3600}) // a plain, easily read witness
 		}
 		q, up := genReply(rng, idx, kind, gen, sc.Big)
 		s.Q, s.Up, s.Resp = q, up, stripOpt(up)
@@ -720,7 +724,7 @@ func compareScenario(st *scenState) {
 func scenarios(seed int64, thorough bool) []scenario {
 	sc := []scenario{
 		{Name: "empty", TruncDump: true},
-		{Name: "one", NExec: 1, TruncDump: true},
+		{Name: "one", NExec: 1, TruncDump: true, NoShort: true},
 		{Name: "mixed-lazy-300", Lazy: 86400, NExec: 150, NInject: 150, BlockSizes: []int{1, 7, 128, 200}, TruncDump: true},
 		{Name: "mixed-nolazy-200", NExec: 120, NInject: 80, BlockSizes: []int{128}, TruncDump: true},
 		{Name: "file-restart-120", Lazy: 3600, NExec: 60, NInject: 60, ViaFile: true, BlockSizes: []int{50}},
